@@ -86,6 +86,20 @@ struct verif_cfg16
   static constexpr uint32_t cb_slots = 4;
 };
 
+// LP32-like integers but a pointer representation as wide as the host's (region-relative
+// offsets in a uint64_t): same-width-but-not-identity pointer translation
+struct verif_cfg64
+{
+  using rep_t = uint64_t;
+  using short_t = int16_t;
+  using int_t = int32_t;
+  using long_t = int32_t;
+  using llong_t = int64_t;
+  static constexpr size_t region_size = size_t(1) << 32;
+  static constexpr size_t committed = size_t(1) << 20;
+  static constexpr uint32_t cb_slots = 4;
+};
+
 // guest short=int32, int=long=long long=int64: makes the narrowing-on-load and
 // widening-on-store branches reachable through the API
 struct verif_cfgwide
@@ -346,5 +360,6 @@ public:
 using rlbox_verif32_sandbox = rlbox_verif_sandbox<verif_cfg32>;
 using rlbox_verif16_sandbox = rlbox_verif_sandbox<verif_cfg16>;
 using rlbox_verifwide_sandbox = rlbox_verif_sandbox<verif_cfgwide>;
+using rlbox_verif64_sandbox = rlbox_verif_sandbox<verif_cfg64>;
 
 }
